@@ -39,6 +39,8 @@ fn hostile_docs() -> Vec<Value> {
         json!({"k": [1e308, 1e308], "s": "\u{10FFFF}", "n": -9223372036854775808i64, "o": {"": null}}),
         json!([["a", "b"], ["c"]]),
         json!({"a": "1", "b": "abc", "c": [], "d": {}, "e": false}),
+        json!({"": 1, "a": {"": {"": []}}, "rows": [{"id": 1}, {"id": 2, "tags": {"": true}}]}),
+        json!([{"": ""}, {"\u{0}": 0}, {" ": " "}]),
     ];
     // scalar zoo: every built-in is called as f(@) on each of these
     for z in ["", " ", "-", " - ", "-\n", "+", ".", "e", "-e1", "1e", "1e+", "0x", "\"", "[", "{", "nul", "tru", "\u{0}", "\u{10FFFF}", "a\u{301}", "\r\n"] {
@@ -100,7 +102,9 @@ pub fn depth_family(name: &str, d: usize) -> Option<String> {
 }
 
 
-const FIXED: [&str; 24] = [
+const FIXED: [&str; 36] = [
+    // calls whose name is reached through a parenthesised (quoted) identifier: empty, blank, NUL, very long, a built-in's
+    "(\"\")(@)", "(\"\")()", "((\"\"))(@, @)", "(\" \")(@)", "(\"\\u0000\")(@)", "(\"length\")(@)", "(a)(@)", "(\"a b\")(&@)", "[(\"\")(@)]", "a.(\"\")(@)", "map(&(\"\")(@), @)", "(\"\")(@) || @",
     "-", "-٣", "-²", "-0", "-01", "a[-", "a[-٣]", "\"", "'", "`", "\"abc", "'abc\\", "`abc\\", "\"\\", "`\\`", "'\\'", "\"\\ud800\"",
     "\"\\udc00\\ud800\"", "`\"\\ud800\"`", "a[99999999999999999999]", "a[-99999999999999999999]", "=", "a[?", "\u{0}",
 ];
@@ -141,6 +145,8 @@ pub fn gen_case(rng: &mut Rng) -> (String, &'static str) {
         }
     } else if rng.chance(1, 4) {
         (refimpl::sentence::wide_case(rng), "wide")
+    } else if rng.chance(1, 4) {
+        (refimpl::sentence::bracket_text_case(rng), "bracket-text")
     } else if rng.chance(1, 3) {
         let mut parts = vec![];
         let budget = 2 + rng.below(8) as i32;
@@ -266,8 +272,17 @@ fn run_case(rep: &mut Report, expr: &str, docs: &[Value], family: &str, ndocs: u
         let d = if ndocs >= docs.len() { &docs[k] } else { &docs[rng.below(docs.len())] };
         rep.evaluations += 1;
         jmespath::verif::reset();
-        let input = rcvar_of(d);
-        let r = guarded(|| e.search(&input).map(|v| v.is_null()));
+        // documents arrive as library values and, every other time, as typed (serde) values converted by `search`
+        let typed = (k + expr.len()) % 2 == 1;
+        let r = if typed {
+            guarded(|| e.search(d).map(|v| v.is_null()))
+        } else {
+            let input = rcvar_of(d);
+            guarded(|| e.search(&input).map(|v| v.is_null()))
+        };
+        if typed {
+            rep.count("searched_typed_document");
+        }
         let ctr = jmespath::verif::counters();
         rep.max("max/interpret_depth", ctr.interp_max_depth);
         rep.add("interpret_steps", ctr.interp_steps);
